@@ -257,4 +257,110 @@ def summarise_sim(records, rule_extra=""):
         "operations_interrupted": st["interrupted"], "operations_raising": st["raising"],
         "pre_emption_modes": modes, "policies": policies,
         "distinct_final_global_states": len(gstates),
+        "systematic_sweeps": {
+            "interrupt_position_sweeps": sum(1 for r in records if (r.get("sweep") or {}).get("kind") == "interrupt"),
+            "interrupt_positions_enumerated": sum(len(r["sweep"]["positions"]) for r in records
+                                                  if (r.get("sweep") or {}).get("kind") == "interrupt"),
+            "depth1_pre_emption_sweeps": sum(1 for r in records if (r.get("sweep") or {}).get("kind") == "depth1"),
+            "depth1_positions_enumerated": sum(len(r["sweep"]["positions"]) for r in records
+                                               if (r.get("sweep") or {}).get("kind") == "depth1"),
+        },
     }
+
+
+# ---------------------------------------------------------------------------------------------------------------
+# systematic sweeps (thorough tier): enumerate crash points / pre-emption points of ONE generated case on a stride
+
+def merge_records(recs, kind, positions):
+    """fold the records of a sweep into one run record (counts summed, violations concatenated)"""
+    base = recs[0]
+    out = dict(base)
+    out["violations"] = [v for r in recs for v in r["violations"]]
+    out["digest"] = sha([r["digest"] for r in recs])
+    out["nontrivial"] = any(r["nontrivial"] for r in recs)
+    for k in ("events", "steps", "switches", "touch_switches", "snapshots"):
+        out[k] = sum(r.get(k, 0) for r in recs)
+    out["faults_fired"] = [f for r in recs for f in r["faults_fired"]]
+    ov = {}
+    for r in recs:
+        for a, b, n in r["overlap"]:
+            ov[(a, b)] = ov.get((a, b), 0) + n
+    out["overlap"] = sorted([[a, b, n] for (a, b), n in ov.items()])
+    ops = {}
+    st = {}
+    for r in recs:
+        for k, n in r["ops"].items():
+            ops[k] = ops.get(k, 0) + n
+        for k, n in r["stats"].items():
+            st[k] = st.get(k, 0) + n
+    out["ops"] = ops
+    out["stats"] = st
+    out["sweep"] = {"kind": kind, "positions": positions, "runs": len(recs)}
+    out["sample"] = dict(base["sample"], sweep={"kind": kind, "positions": positions[:40], "runs": len(recs)})
+    herr = [r["harness_error"] for r in recs if "harness_error" in r]
+    if herr:
+        out["harness_error"] = "; ".join(herr)[:3000]
+    return out
+
+
+def sweep_interrupts(spec, accept=None, n_positions=24, post=None):
+    """base run without faults, then the same case with ONE interrupt at each of n positions on a stride through
+    the events of one operation that creates in-flight state"""
+    import random
+    base = copy.deepcopy(spec)
+    base["faults"] = []
+    hist, viol, stats = run_spec(base, accept)
+    if post:
+        viol = post(base, hist, viol)
+    recs = [record(base, hist, viol, stats)]
+    rng = random.Random(spec["seed"] ^ 0x5EED)
+    cands = [(ti, i, hist["results"][ti][i].get("events", 0)) for ti, p in enumerate(base["programs"])
+             if (base.get("roles") or {}).get(str(ti), "client") == "client"
+             for i, op in enumerate(p) if op.get("op") in ("zero", "fire", "elev", "mk", "new_calc", "powder")
+             and i < len(hist["results"][ti]) and hist["results"][ti][i].get("events", 0) > 2]
+    if not cands:
+        return merge_records(recs, "interrupt", [])
+    zs = [c for c in cands if base["programs"][c[0]][c[1]]["op"] == "zero"]
+    ti, i, ev = rng.choice(zs if zs and rng.random() < 0.6 else cands)
+    stride = max(1, ev // n_positions)
+    positions = list(range(1 + rng.randrange(stride), ev + 1, stride))[:n_positions + 2]
+    for at in positions:
+        s = copy.deepcopy(base)
+        s["faults"] = [{"kind": "interrupt", "task": ti, "op": i, "at": at,
+                        "exc": "MemoryError" if rng.random() < 0.2 else "SimInterrupt"}]
+        h, v, st = run_spec(s, accept)
+        if post:
+            v = post(s, h, v)
+        recs.append(record(s, h, v, st))
+    return merge_records(recs, "interrupt", positions)
+
+
+def sweep_depth1(spec, accept=None, n_positions=24, post=None):
+    """two tasks: task A runs to its i-th pre-emption point, task B to completion, then A resumes - for i on a
+    stride through all of A's points (a probabilistic scheduler reaches a given single pre-emption only by luck)"""
+    import random
+    if len(spec["programs"]) < 2:
+        return None
+    base = copy.deepcopy(spec)
+    base["faults"] = []
+    base["programs"] = base["programs"][:2]
+    base["roles"] = {k: v for k, v in (base.get("roles") or {}).items() if k in ("0", "1")}
+    rng = random.Random(spec["seed"] ^ 0xD1)
+    a, b = (0, 1) if rng.random() < 0.5 else (1, 0)
+    s0 = copy.deepcopy(base)
+    s0["schedule"] = [[a, 1 << 60]]           # A to completion, then B
+    hist, viol, stats = run_spec(s0, accept)
+    if post:
+        viol = post(s0, hist, viol)
+    recs = [record(s0, hist, viol, stats)]
+    ev_a = sum(n for t, n in hist["schedule"] if t == a)
+    stride = max(1, ev_a // n_positions)
+    positions = list(range(1 + rng.randrange(stride), ev_a, stride))[:n_positions + 2]
+    for i in positions:
+        s = copy.deepcopy(base)
+        s["schedule"] = [[a, i], [b, 1 << 60]]
+        h, v, st = run_spec(s, accept)
+        if post:
+            v = post(s, h, v)
+        recs.append(record(s, h, v, st))
+    return merge_records(recs, "depth1", positions)
